@@ -176,8 +176,11 @@ static void do_serve(char **t, int nt) {
     }
     zh_log("{\"i\":%d,\"ev\":\"request\",\"ranges\":\"%s\",\"count\":%d,\"resp_len\":%zu}", opi, rstr, zck_get_range_count(r), rp.body_len);
     int h = deliver_headers(dl, &rp);
-    size_t b = h ? feed_frag(dl, rp.body, rp.body_len, frag, 0) : 0;
-    zh_log("{\"i\":%d,\"op\":\"serve\",\"rc\":%d,\"hdr_ok\":%d,\"nranges\":%d}", opi, (int)(h && b), h, rp.nranges);
+    /* optional 7th argument upto:<n>: the transport dies after n body bytes */
+    size_t deliver = rp.body_len;
+    if(t[7] && !strncmp(t[7], "upto:", 5)) { size_t u = strtoull(t[7] + 5, NULL, 10); if(u < deliver) deliver = u; }
+    size_t b = h ? feed_frag(dl, rp.body, deliver, frag, 0) : 0;
+    zh_log("{\"i\":%d,\"op\":\"serve\",\"rc\":%d,\"hdr_ok\":%d,\"nranges\":%d,\"delivered\":%zu,\"resp_len\":%zu}", opi, (int)(h && b), h, rp.nranges, deliver, rp.body_len);
     free(rp.hdr); free(rp.body); free(rstr); free(B);
 }
 
@@ -196,6 +199,7 @@ static void do_update(char **t, int nt) {
     int style = atoi(t[6]);
     const char *frag = t[7] ? t[7] : "all";
     const char *boundary = t[8] ? t[8] : "zckverifBOUNDARY";
+    int fresh_boundary = !(t[8] && t[9] && !strcmp(t[9], "same"));
     zckCtx *tgt = ctx[ts];
     int rc = -1, rounds = 0;
     const char *stage = "init";
@@ -248,7 +252,11 @@ static void do_update(char **t, int nt) {
             char *rstr = zck_get_range_char(tgt, range);
             if(!rstr) goto out;
             struct resp rp;
-            if(!build_response(rstr, B, Blen, style, boundary, &rp)) {
+            /* real servers pick a fresh boundary for every response */
+            char rb[300];
+            snprintf(rb, sizeof(rb), "%s%s%d", boundary, fresh_boundary ? "r" : "", fresh_boundary ? rounds : 0);
+            if(!fresh_boundary) snprintf(rb, sizeof(rb), "%s", boundary);
+            if(!build_response(rstr, B, Blen, style, rb, &rp)) {
                 zh_log("{\"i\":%d,\"ev\":\"request\",\"round\":%d,\"ranges\":\"%s\",\"unsatisfiable\":1}", opi, rounds, rstr);
                 stage = "unsatisfiable";
                 goto out;
